@@ -220,7 +220,7 @@ impl Gen<'_> {
         self.labels.push((id, family.to_string()));
         self.pending_bytes += bytes.len() + 64;
         self.total += 1;
-        if self.thorough && self.total % 997 == 0 && self.replay_sample.len() < 6000 && bytes.len() < 20_000 {
+        if self.thorough && self.total % 331 == 0 && self.replay_sample.len() < 6000 && bytes.len() < 20_000 {
             self.replay_sample.push(bytes.clone());
         }
         self.cases.push(Case { id, budget: default_budget(bytes.len()), bytes });
